@@ -690,12 +690,11 @@ package secp256k1
 //@ func (*Point).SetUniformBytes
 //@   props C15 C18
 //@   option field
-//@   split len(src) in 32..64 else step 8/1
-//@   bounded len(src) in {32, 40, 48, 56, 64} in the quick tier (48 is the length both suites pass); every length 32..64 in the thorough tier; other lengths panic (proved in both tiers)
+//@   split cond len(src) >= 32 && len(src) <= 64
 //@   panics len(src) < 32 || len(src) > 64
 //@   apply sy@yP: swu_y_def(val(u))
 //@   apply ac@y: aff_coords(val(x), val(y))
-//@   ensures v.isValid && result == v && abs(v) == h2c_map(fp(os2ip(src)))
+//@   ensures v.isValid && result == v && abs(v) == h2c_map(fp(os2ipv(src)))
 //@   modifies *v
 //@
 //@ func NewScalar
